@@ -93,11 +93,13 @@ pub fn sites(tier: Tier) -> Vec<Site> {
     let mut s = vec![];
     {
         let vals = std::sync::Arc::new(short_read_values());
-        let n = vals.len() as u64 * 4 * 8;
+        let n = vals.len() as u64 * 4 * 8 * 2;
         s.push(Site::new("short-reads", n,
-            "every built-in name, near-names and mod ids x identifier at stream offset 0..3 x every way a reader can deliver its 4 bytes in pieces (8 compositions): same value, same bytes consumed as from a plain cursor",
+            "every built-in name, near-names and mod ids x identifier at stream offset 0..3 x every way a reader can deliver its 4 bytes in pieces (8 compositions) x {never, every second call} interrupted (EINTR): same value, same bytes consumed as from a plain cursor; written back through a writer that accepts 1-3 bytes per call",
             move |i, acc| {
                 acc.eval();
+                let interrupts = i % 2 == 1;
+                let i = i / 2;
                 let value = vals[(i / 32) as usize];
                 let off = ((i / 8) % 4) as usize;
                 let mask = (i % 8) << off;
@@ -112,8 +114,17 @@ pub fn sites(tier: Tier) -> Vec<Site> {
                 };
                 let chopped = guard(|| {
                     let mut c = crate::choppy::Choppy::new(data.clone(), mask, 64);
+                    c.interrupt_every = if interrupts { 2 } else { 0 };
                     let _ = std::io::Seek::seek(&mut c, std::io::SeekFrom::Start(off as u64));
                     let r = Vehicle::read_le(&mut c);
+                    // and the way back through a writer that takes one byte at a time
+                    if let Ok(v) = &r {
+                        let mut w = crate::choppy::ChoppyWriter::new(1 + (mask as usize % 3), if interrupts { 2 } else { 0 });
+                        let wr = v.write_le(&mut w);
+                        if wr.is_err() || w.data[..] != value.to_le_bytes()[..] {
+                            return (format!("{r:?} but written through a slow writer as {} ({wr:?})", crate::report::hex(&w.data)), c.position());
+                        }
+                    }
                     (format!("{r:?}"), c.position())
                 });
                 let replay = json!({"site": "short-reads", "index": i, "bytes": crate::report::hex(&value.to_le_bytes()), "offset": off, "cuts": mask >> off});
